@@ -460,6 +460,99 @@ def gen_pair(r):
     return sub_line(2, pair_subtable(pairs, f1, f2), props, d, i, infos, model, rand_pos(r, n))
 
 
+import _gposdev as GD
+
+
+def rand_ppem(r, vrs):
+    """(ppem_x, ppem_y): mostly sizes at which a device of these records is live, sometimes 0 / outside"""
+    live = GD.device_sizes(vrs) or [12]
+    def one():
+        k = r.below(8)
+        return 0 if k == 0 else r.range(6, 40) if k == 1 else r.choice(live)
+    x = one()
+    return (x, x) if r.chance(1, 2) else (x, one())
+
+
+def subd_line(ppem, kind, data, props, d, idx, infos, model, ps):
+    inf = ",".join(f"{g}:{gp}:{lp}" for g, gp, lp in infos)
+    return f"gp subd {ppem[0]} {ppem[1]} {kind} {data.hex()} {props} {d} {idx} {inf} {model} | {fmt_pos(ps)}"
+
+
+def gen_single_d(r):
+    n = r.range(1, 6)
+    d = r.choice(DIRS)
+    infos = [(k + 1, BASE, 0) for k in range(n)]
+    idx = r.below(n)
+    fmt = r.choice([1, 2])
+    vf = GD.rand_vf(r)
+    vals = {k + 1: GD.rand_vr(r, vf) for k in range(n) if r.chance(4, 5)} or {n + 3: GD.rand_vr(r, vf)}
+    if fmt == 1:
+        v = vals[min(vals)]; vals = {g: v for g in vals}
+    applies = int(idx + 1 in vals)
+    v = vals.get(idx + 1, GD.EMPTY_VR)
+    ppem = rand_ppem(r, list(vals.values()))
+    model = f"singled {int(ppem[0] != 0)} {int(ppem[1] != 0)} {' '.join(GD.vr_tokens(v, *ppem))} {applies}"
+    return subd_line(ppem, 1, GD.single_subtable(vals, vf, fmt), 0, d, idx, infos, model, rand_pos(r, n))
+
+
+def gen_pair_d(r):
+    n = r.range(2, 7)
+    d = r.choice(DIRS)
+    props = IGNORE_MARKS if r.chance(1, 2) else 0
+    marks = [r.chance(1, 4) for _ in range(n)]
+    infos = [(k + 1, MARK if marks[k] else BASE, 0) for k in range(n)]
+    skip = lambda k: bool(props) and marks[k]
+    i = r.below(n - 1)
+    j = next((k for k in range(i + 1, n) if not skip(k)), None)
+    vf1 = GD.rand_vf(r)
+    vf2 = r.choice([0, 0, GD.rand_vf(r), r.choice(GD.BITS[4:])])
+    allv = []
+    if r.chance(1, 2):
+        pairs = {}
+        for a in range(n):
+            pairs[a + 1] = {b + 1: (GD.rand_vr(r, vf1), GD.rand_vr(r, vf2)) for b in range(n) if r.chance(3, 4)}
+        data = GD.pair_subtable_f1(pairs, vf1, vf2)
+        rec = pairs[i + 1].get((j or 0) + 1) if j is not None else None
+        allv = [v for ps in pairs.values() for pr in ps.values() for v in pr]
+        if rec is not None:          # ttf-parser 0.25 cannot reach a device table from a PairSet (see _gposdev.pairset_visible)
+            rec = tuple(GD.pairset_visible(v) for v in rec)
+    else:
+        nc1, nc2 = r.range(1, 3), r.range(1, 3)
+        cov = [g for g in range(1, n + 1) if r.chance(4, 5)] or [1]
+        cls1 = {g: r.below(nc1) for g in range(1, n + 1)}
+        cls2 = {g: r.below(nc2) for g in range(1, n + 1)}
+        matrix = [[(GD.rand_vr(r, vf1), GD.rand_vr(r, vf2)) for _ in range(nc2)] for _ in range(nc1)]
+        data = GD.pair_subtable_f2(cov, cls1, cls2, matrix, vf1, vf2)
+        rec = matrix[cls1[i + 1]][cls2[j + 1]] if j is not None and (i + 1) in cov else None
+        allv = [v for row in matrix for pr in row for v in pr]
+    applies = int(rec is not None)
+    v1, v2 = rec or (GD.EMPTY_VR, GD.EMPTY_VR)
+    ppem = rand_ppem(r, allv)
+    model = (f"paird {j or 0} {int(ppem[0] != 0)} {int(ppem[1] != 0)} {' '.join(GD.vr_tokens(v1, *ppem))} "
+             f"{' '.join(GD.vr_tokens(v2, *ppem))} {applies}")
+    return subd_line(ppem, 2, data, props, d, i, infos, model, rand_pos(r, n))
+
+
+def subd_lines(r, n):
+    return [r.choice([gen_single_d, gen_pair_d])(r) for _ in range(n)]
+
+
+def classify_subd(ln, out):
+    t = ln.split()
+    bar = t.index("|")
+    m = t[10:bar]
+    ks = [m[0], f"{m[0]}:dir:{t[7]}", f"{m[0]}:applied:{m[-1]}", f"{m[0]}:ppem:{'x' if t[2] != '0' else ''}{'y' if t[3] != '0' else ''}" ]
+    vals = m[3:-1] if m[0] == "singled" else m[4:-1]
+    devs = [x for k, x in enumerate(vals) if k % 8 >= 4]
+    ks.append(f"{m[0]}:devices:" + ("none" if all(x == "-" for x in devs) else "all-zero" if all(x in "-0" for x in devs) else "live"))
+    for k, x in enumerate(vals):
+        if k % 8 >= 4 and x not in ("-", "0") and m[-1] == "1":
+            ks.append(f"live:{('xPla', 'yPla', 'xAdv', 'yAdv')[k % 8 - 4]}Device:{'h' if t[7] in 'lr' else 'v'}")
+    if out.startswith("panic") or not out.startswith("ok"):
+        ks.append(out[:30])
+    return ks
+
+
 CHAIN_MAX = 32767
 
 
@@ -1697,6 +1790,8 @@ def run(ctx):
                    classify=classify_prop, canon=canon)
     ctx.correspond("gpos-apply", lines=sub_lines(ctx.rng("sub"), ctx.budget(6000, 600000)),
                    classify=classify_sub, canon=canon)
+    ctx.correspond("gpos-apply-device", lines=subd_lines(ctx.rng("subd"), ctx.budget(4000, 300000)),
+                   classify=classify_subd, canon=canon)
     ctx.correspond("kern-machine", lines=mk_lines(ctx.rng("mk"), ctx.budget(4000, 400000)),
                    classify=classify_mk, canon=canon)
     ctx.correspond("kern-fmt0", lines=f0_lines(ctx.rng("f0"), ctx.budget(2000, 100000)), canon=canon)
